@@ -114,6 +114,19 @@ def parent_atoms(rich: bool) -> List[Tuple[str, tuple]]:
     out.append(("nested", lam("all", ["minions"], "m", lam("all", ["m", "children"], "c", cmp_("gt", P("c", "k"), K)))))
     out.append(("nested", lam("all", ["children"], "c", lam("any", ["c", "parent", "minions"]))))
     out.append(("nested", lam("any", ["tags"], "t", lam("any", ["t", "parents"], "p", cmp_("gt", P("p", "n"), K)))))
+    # two lambdas over the SAME collection with different bodies, joined by and / or (they must not be merged)
+    for coll, var, p1, p2 in (("children", "c", cmp_("gt", P("c", "k"), K), cmp_("eq", P("c", "label"), S("a"))),
+                              ("children", "c", cmp_("gt", P("c", "k"), K), cmp_("lt", P("c", "k"), K)),
+                              ("tags", "t", cmp_("eq", P("t", "t"), S("a")), cmp_("eq", P("t", "t"), S("b"))),
+                              ("minions", "m", cmp_("gt", P("m", "n"), K), cmp_("eq", P("m", "name"), S("a")))):
+        v2 = var + "2"
+        q2 = G.map_term(p2, lambda x: ("path", [v2] + x[1][1:]) if x[0] == "path" and x[1][0] == var else x)
+        for q, op in (("any", "and"), ("any", "or"), ("all", "or"), ("all", "and")):
+            out.append(("lambda-pair", (op, lam(q, [coll], var, p1), lam(q, [coll], v2, q2))))
+        out.append(("lambda-pair", ("not", ("and", lam("any", [coll], var, p1), lam("any", [coll], v2, q2)))))
+        out.append(("lambda-pair", ("not", ("or", lam("all", [coll], var, p1), lam("all", [coll], v2, q2)))))
+        out.append(("lambda-pair", ("and", lam("any", [coll], var, p1), lam("all", [coll], v2, q2))))
+        out.append(("lambda-pair", ("and", ("and", lam("any", [coll], var, p1), lam("any", [coll], v2, q2)), cmp_("gt", F("n"), K))))
     # the root's own column inside a lambda body ($it)
     out.append(("outer-ref", lam("any", ["children"], "c", cmp_("gt", P("c", "k"), F("n")))))
     out.append(("outer-ref", lam("all", ["minions"], "m", cmp_("le", P("m", "n"), F("n")))))
@@ -140,6 +153,20 @@ def child_atoms(rich: bool) -> List[Tuple[str, tuple]]:
             out.append(("to-one", cmp_("eq", P(rel, "n"), F("k"))))
     out.append(("to-one", cmp_("eq", P("parent", "n"), P("owner", "n"))))
     out.append(("to-one", ("and", cmp_("gt", P("parent", "n"), K), cmp_("eq", P("owner", "name"), S("a")))))
+    return out
+
+
+def ticket_atoms() -> List[Tuple[str, tuple]]:
+    """Second schema: Ticket.owner -> User and Project.owner -> Team are different relationships with the same name."""
+    a1 = cmp_("eq", P("project", "owner", "name"), S("a"))
+    a2 = cmp_("eq", P("owner", "name"), S("b"))
+    out = [("same-name-rels", ("and", a1, a2)), ("same-name-rels", ("and", a2, a1)), ("same-name-rels", ("or", a1, a2)),
+           ("same-name-rels", ("and", ("not", a1), a2)), ("same-name-rels", cmp_("eq", P("project", "owner", "name"), P("owner", "name"))),
+           ("same-name-rels", ("and", cmp_("ne", P("owner", "name"), ("null",)), cmp_("eq", P("project", "owner", "name"), ("null",)))),
+           ("same-name-rels", ("and", ("and", a1, a2), cmp_("gt", F("n"), K))),
+           ("same-name-rels", ("or", cmp_("eq", P("project", "name"), S("a")), ("and", a2, a1))),
+           ("to-one2", a1), ("to-one2", a2), ("to-one2", cmp_("eq", P("project", "name"), S("a"))),
+           ("to-one2", cmp_("eq", P("project", "owner"), ("null",))), ("to-one2", ("or", a1, cmp_("eq", F("n"), K)))]
     return out
 
 
@@ -197,6 +224,8 @@ def programs(tier: str, seed: int) -> Tuple[List[dict], Dict[str, Any]]:
         add("Parent", fam, t)
     for fam, t in compose(ca, child_plain(), rng, 40 if quick else 500, 15 if quick else 300):
         add("Child", fam, t)
+    for fam, t in ticket_atoms():
+        add("Ticket", fam, t)
     if not quick:
         base = list(items)
         for it in base:
@@ -251,7 +280,7 @@ def features(t) -> List[str]:
     walk(t, 0, frozenset())
     # two different top-level to-one paths into the same table (each needs its own aliased join)
     from ..models.schema import REL
-    for root in ("vt_parent", "vt_child"):
+    for root in ("vt_parent", "vt_child", "vt2_ticket", "vt2_project"):
         targets: Dict[str, set] = {}
         for x in _toplevel(t):
             segs = x[1] if x[0] == "path" else x[2]
